@@ -83,7 +83,7 @@ Step(e) ==
          /\ tid' = e.t /\ pad' = e.pad /\ maxSz' = e.maxSz /\ auto' = e.auto
          /\ kind' = "none" /\ exp' = <<>> /\ mcur' = e.curSz /\ mmode' = e.mode /\ pending' = <<>>
          /\ bad' = bad \cup FlagT(e.lenNP = 0, e.t, "a new buffer is not empty")
-         /\ drift' = drift \cup FlagT(e.curSz = (IF e.cap < 64 THEN 64 ELSE e.cap) /\ e.pad = 8 /\ e.lenWP = 8, e.t,
+         /\ drift' = drift \cup FlagT((("reopen" \in DOMAIN e /\ e.reopen) \/ e.curSz = (IF e.cap < 64 THEN 64 ELSE e.cap)) /\ e.pad = 8 /\ e.lenWP = 8, e.t,
                                        "initial capacity/padding differ from the design")
     [] e.ev = "Call" ->
          /\ Assert(pending = <<>>, <<"Call while a call is pending", l>>)
